@@ -1,5 +1,67 @@
-From PV Require Import Lib.Base Model.ConfInt.
-Open Scope Q_scope.
-Theorem C12_two_sided_level_split : forall cl, tail_level cl CITwoSided == (1 - cl) / 2 /\ tail_level cl CILower == 1 - cl.
-Proof. intros cl. split; reflexivity. Qed.
-Print Assumptions C12_two_sided_level_split.
+(* C12 -- binom_conf_interval returns Clopper-Pearson bounds with guaranteed coverage.
+   The numerical root finder is not modelled: every output of the implementation is certified by the Gallina
+   checker cp_check, whose soundness is proved here.  Statements only; proofs in Proofs/ConfIntProofs.v,
+   Lib/BinomMono.v, Proofs/PvaluesProofs.v. *)
+From Coq Require Import ZArith QArith List.
+From PV Require Import Lib.Base Model.TailsZ Model.ConfInt.
+From mathcomp Require Import all_ssreflect.
+From PV Require Import Lib.Tails Lib.Binom Lib.BinomMono Proofs.PvaluesProofs Proofs.ConfIntProofs.
+Local Open Scope nat_scope.
+
+(* level split: a = (1-cl)/2 for two-sided, 1-cl for one-sided intervals *)
+Theorem C12_tail_level : forall cl,
+  (tail_level cl CITwoSided == (1 - cl) / 2)%Q /\ (tail_level cl CILower == 1 - cl)%Q /\ (tail_level cl CIUpper == 1 - cl)%Q.
+Proof. intros cl. repeat split; reflexivity. Qed.
+Print Assumptions C12_tail_level.
+
+(* the exact tails are monotone in p, for every n and x (this is what makes test inversion an interval) *)
+Theorem C12_tails_monotone_in_p : forall n x p q, (0 <= p)%Q -> (p <= q)%Q -> (q <= 1)%Q ->
+  (binom_upper_q n x p <= binom_upper_q n x q)%Q /\ (binom_lower_q n x q <= binom_lower_q n x p)%Q.
+Proof. intros n x p q h0 pq h1. split; [exact (@binom_upper_q_mono n x p q h0 pq h1)|exact (@binom_lower_q_anti n x p q h0 pq h1)]. Qed.
+Print Assumptions C12_tails_monotone_in_p.
+
+(* certificate soundness: if the checker accepts the returned lower limit L with bracket [p1,p2], then every p
+   below the bracket has P_p(X >= x) <= a and every p above it has P_p(X >= x) >= a: the exact Clopper-Pearson
+   limit lies in the bracket, hence within 3 delta of L.  Symmetrically for the upper limit. *)
+Theorem C12_lower_limit_certified : forall n x (a L p1 p2 delta : Q),
+  lower_cert n x a L p1 p2 delta = true ->
+  [/\ (p1 <= L)%Q, (L <= p2)%Q, (p2 - p1 <= (3 # 1) * delta)%Q,
+      (forall p, (0 <= p)%Q -> (p <= p1)%Q -> ~ (p1 == 0)%Q -> (binom_upper_q n x p <= a)%Q) &
+      (forall p, (p2 <= p)%Q -> (p <= 1)%Q -> ~ (p2 == 1)%Q -> (a <= binom_upper_q n x p)%Q)].
+Proof. intros n x a L p1 p2 delta. exact (@lower_cert_sound n x a L p1 p2 delta). Qed.
+Print Assumptions C12_lower_limit_certified.
+
+Theorem C12_upper_limit_certified : forall n x (a U q1 q2 delta : Q),
+  upper_cert n x a U q1 q2 delta = true ->
+  [/\ (q1 <= U)%Q, (U <= q2)%Q, (q2 - q1 <= (3 # 1) * delta)%Q,
+      (forall p, (0 <= p)%Q -> (p <= q1)%Q -> ~ (q1 == 0)%Q -> (a <= binom_lower_q n x p)%Q) &
+      (forall p, (q2 <= p)%Q -> (p <= 1)%Q -> ~ (q2 == 1)%Q -> (binom_lower_q n x p <= a)%Q)].
+Proof. intros n x a U q1 q2 delta. exact (@upper_cert_sound n x a U q1 q2 delta). Qed.
+Print Assumptions C12_upper_limit_certified.
+
+(* the limits that are not solved are exactly 0 and 1: x = 0 or an upper-only interval gives lower limit 0,
+   x = n or a lower-only interval gives upper limit 1 *)
+Theorem C12_trivial_limits : forall n x cl alt L U p1 p2 q1 q2 delta,
+  cp_check n x cl alt L U p1 p2 q1 q2 delta = true ->
+  (wants_lower alt x = false -> (L == 0)%Q) /\ (wants_upper alt n x = false -> (U == 1)%Q).
+Proof.
+  intros n x cl alt L U p1 p2 q1 q2 delta. rewrite /cp_check => /andP [h1 h2]. split => e.
+  - move: h1; rewrite e => /Qeq_bool_iff. by [].
+  - move: h2; rewrite e => /Qeq_bool_iff. by [].
+Qed.
+Print Assumptions C12_trivial_limits.
+
+(* coverage of the exact interval: for every true p = a/(a+b) and every level c/d, the total binomial weight of
+   the outcomes x whose upper tail P_p(X >= x) is <= c/d -- these include every x whose lower limit exceeds p --
+   is at most c/d of the total; likewise for the lower tail and the upper limit.  So each side misses with
+   probability at most its tail level. *)
+Theorem C12_exact_interval_covers : forall n a b c d,
+  mass_up (accept c d ((a + b) ^ n)) (wbinom n a b) * d <= c * (a + b) ^ n /\
+  mass_lo (accept c d ((a + b) ^ n)) (wbinom n a b) * d <= c * (a + b) ^ n.
+Proof. intros n a b c d. split; [exact (binom_greater_valid n a b c d)|exact (binom_less_valid n a b c d)]. Qed.
+Print Assumptions C12_exact_interval_covers.
+
+Example C12_nonvacuous :
+  cp_check 10 3 (39 # 40) CITwoSided (5154625578928545 # 100000000000000000) (6915018049393984 # 10000000000000000)
+           (51546255 # 1000000000) (51546257 # 1000000000) (691501804 # 1000000000) (691501806 # 1000000000) (1 # 1000000000) = true.
+Proof. vm_compute. reflexivity. Qed.
